@@ -298,8 +298,11 @@ pub fn check_inc<T: Ar>(sp: &Spec<T>, which: &str, a: &V<T>, fs: &[T], als: &[T]
                 }
             }
         }
-        // algebra for amounts in [0, 1]
-        if ff >= 0.0 && ff <= 1.0 {
+        // algebra for amounts in [0, 1] — for colours whose affected component lies inside its documented
+        // [min, max]; colours above a soft limit (Lch chroma > max_chroma(), see lat.rs) only take part in
+        // the exact comparisons between the forms
+        let nominal = ops.affected.iter().all(|af| a[af.idx].to64() >= af.min.to64() && a[af.idx].to64() <= af.max.to64());
+        if ff >= 0.0 && ff <= 1.0 && nominal {
             for (slot, k, dir) in [(0usize, 0usize, 1i32), (1, 1, 1), (2, 4, -1), (3, 5, -1)] {
                 let _ = slot;
                 let res = &rs[k];
